@@ -34,8 +34,8 @@ CHECKS = {
          'Writes that skip ids must read back the documented fill (NaN for floats, zero for integers) for exactly the skipped ids; overlapping or backward ids keep the samples already accepted; statistics over float windows that contain skipped samples must describe the samples that are present (min/max exact, mean within their extremes, all-NaN for a window inside a gap).'),
  'C10': ('A', 'exploration', 'seeded misuse programs (mutated ids, raw data type codes, windows, lengths, extreme parameters, oversized strings, duplicate definitions, wrong-order calls) through reader, writer, threaded writer and copy, followed by a seeded sequence of raw-layer calls (jls_raw_*: read, write, seek to arbitrary offsets, navigate, scan), all with exact-size caller buffers under ASan/UBSan(bounds) and the accounting allocator; deterministic step budget as watchdog', '7 C10',
          'No call sequence may crash, overrun a caller buffer or a library allocation, loop forever (edge budget), or leave memory allocated after close (allocator ledger must be empty); process-killing reports are attributed to the library frame that raised them.'),
- 'C14': ('A', 'exploration', 'write-once monitor over the SimFS write log of every produced file', '7 C14',
-         'Every backend write is classified: appends are free; a rewrite must target exactly the item_next field (plus header CRC) of an existing chunk header, a head table payload, or the file header length, and must not change any other byte. Anything else is a violation.'),
+ 'C14': ('A', 'exploration', 'write-once monitor over the SimFS write log of every produced file (sync and threaded writer, programs with flushes, repeated UTC ids and calls the writer refuses)', '7 C14',
+         'Every backend write is classified: appends are free; a rewrite must target exactly the item_next field (plus header CRC) of an existing chunk header, a head table payload, or the file header length, and must not change any other byte. Anything else is a violation; a refused call (NULL data with a size, oversized definition) must leave nothing behind that a later write then overwrites.'),
  'C15': ('A', 'exploration', 'seeded programs with on-request and automatic omission; decoder learns which blocks are omitted; reads and statistics compared with the model', '7 C15',
          'Omitted level-0 blocks must not be stored, their summaries must be, statistics must be unaffected, and reading an omitted block must return the documented reconstruction (constant blocks exactly).'),
  'C17': ('A', 'exploration', 'jls_copy under simulation on closed files and on crash images of the same program; reader dump of the original vs reader dump of the copy; copy decoded by the independent decoder and checked against the submitted program', '7 C17',
